@@ -75,8 +75,9 @@ def splitBgpls (vpn : Bool) (d : Bytes) : Option Cut :=
     let code := rd16 d
     let len := rd16 (d.drop 2)
     let known := bgplsCodes.contains code
-    if vpn && decide (d.length < 12) then none
-    else if vpn && decide (len < 8) && known then none
+    -- (until /repo F98 a VPN NLRI was also refused when fewer than 12 octets were LEFT in the field, which counted
+    --  what follows the NLRI: the same short NLRI of an unregistered type was accepted or not by its successor)
+    if vpn && decide (len < 8) && known then none
     else if d.length < 4 + len then none
     else some ⟨d.take (4 + len), d.take (4 + len), d.drop (4 + len)⟩
 
